@@ -19,7 +19,9 @@ RULE = ("P (plan capture): for random requests (subsets of count / mean / var / 
         "tolerance; one result per variant; de-duplication and pair ordering of the request")
 TRUSTED = ["hand model model/ReadPlan.v tied by plan capture (tools/plans.py recorders)", "denotation of plans (lib/PlanSem.v) = "
            "what the engines compute: validated on the five executable backends only", "ibis native var/cov(how='sample') "
-           "mean what ibis documents (no installed backend implements both)"]
+           "mean what ibis documents (no installed backend implements both)",
+           "recorder normalisation: data.join(data.group_by(g).agg(mean ...), on=g, how='left') is read as the window step "
+           "mean(col) over the partition of g (relational identity; null keys aside)"]
 ASSUMES = ["C01_engine_partial: that each of the five engines evaluates a captured plan as lib/PlanSem.v reads it (window mean over the "
            "partition, GROUP BY, one output row per group) is validated by the exact differential, not proved",
            "C01_error_bound_partial: the rounding-error bound is validated against exact rationals (offset stress), not proved",
